@@ -377,8 +377,8 @@ def run_shard(ctx):
     ctx.sample({"n": 256000, "class": "random", "variant": "ref-empty-block-tail", "expected": "exact plaintext"})
 
 
-REQUIRE = [("decrypts", 800, "zip=DEF decrypts"), ("within_limit", 200, "plaintexts within the limit"), ("beyond_limit", 300, "plaintexts beyond the limit"),
-           ("inflate_events", 800, "inflater events seen through the zlib proxy"), ("memory_children", 5, "memory measurements in fresh children")]
+REQUIRE = [("decrypts", 300, "zip=DEF decrypts"), ("within_limit", 80, "plaintexts within the limit"), ("beyond_limit", 100, "plaintexts beyond the limit"),
+           ("inflate_events", 300, "inflater events seen through the zlib proxy"), ("memory_children", 3, "memory measurements in fresh children")]
 
 
 def replay(ctx, case):
